@@ -519,7 +519,17 @@ def eval_arm_reuse(acc, mr, ac, states, V):
     Ml, Gl, S = ac.Ml, ac.Gl, ac.S
     qb, qdb, qddb, gb, Fb = np.zeros(n), np.zeros(n), np.zeros(n), np.zeros(3), np.zeros(6)
     held = []
+    # after each of the first three states two tiny steps (1e-6, then 2e-7 more on every joint), as a finite difference or a
+    # slow trajectory takes them: the answers differ by ~1e-6 relative, a result remembered for a 'close enough' argument is wrong
+    # (only from states with no joint value near 0: a joint value inside the exponential's 1e-6 cut-off is C01's business)
+    seq, stepped = [], 0
     for k, q in enumerate(states):
+        seq.append(np.array(q, float))
+        if stepped < 3 and float(np.abs(q).min()) > 1e-2:
+            stepped += 1
+            seq.append(np.array(q, float) + 1e-6)
+            seq.append(np.array(q, float) + 1.2e-6)
+    for k, q in enumerate(seq):
         qb[:] = q
         qdb[:] = V.qd[(k % (n + 1)) + 1] if k % 2 else V.qd[0]
         qddb[:] = V.qdd[n + 1] if k % 3 == 0 else V.qdd[0]
